@@ -1,6 +1,6 @@
-(* C17 — Rate limiting admits at most capacity plus refill.
+(* C17 — Rate limiting lets through at most capacity plus refill.
    For any timeline of requests from a rate-limited host, the number of requests
-   admitted in any time window never exceeds the bucket capacity plus the refill
+   let through in any time window never exceeds the bucket capacity plus the refill
    rate times the window length in whole seconds.  Bypassed nodes and
    non-routable addresses are never limited.
    Model: model/Limiter.v (tokens scaled by the rate's denominator, so the
@@ -89,17 +89,17 @@ Proof. exact lan_ranges_unroutable. Qed.
 
 (* the backwards-clock panic of `duration_since`: exactly when the call reaches
    an existing bucket refilled later than `now`; it changes no bucket (so it
-   admits nothing); it cannot happen on a monotone timeline *)
+   grants nothing); it cannot happen on a monotone timeline *)
 Theorem C17_backward_clock_panics_exactly :
   forall (l : limiter) (r : req),
   snd (limit l r) = ClockPanic <->
   (reaches l r = true /\ exists b, hb (r_host r) l = Some b /\ (r_now r < b_refilled b)%N).
 Proof. exact clock_panic_exactly. Qed.
 
-Theorem C17_backward_clock_admits_nothing :
+Theorem C17_backward_clock_grants_nothing :
   forall (l : limiter) (r : req), snd (limit l r) = ClockPanic ->
   is_passed (snd (limit l r)) = false /\ forall h, hb h (fst (limit l r)) = hb h l.
-Proof. exact clock_panic_admits_nothing. Qed.
+Proof. exact clock_panic_grants_nothing. Qed.
 
 Theorem C17_monotone_clock_never_panics :
   forall (bypass : list N) (rs : list req),
